@@ -319,6 +319,23 @@ class Obj:
         return f"<{self.cls.name} {self.label or '#%d' % self.uid}>"
 
 
+class NTuple(tuple):
+    """Instance of a typing.NamedTuple / collections.namedtuple class: a tuple that also answers to field names."""
+
+    def __new__(c, cls, items):
+        o = tuple.__new__(c, items)
+        o.cls = cls
+        return o
+
+    def __deepcopy__(self, memo):
+        import copy as _c
+
+        return NTuple(self.cls, [_c.deepcopy(x, memo) for x in self])
+
+    def __repr__(self):
+        return f"{self.cls.name}({', '.join(f'{k}={v!r}' for k, v in zip(self.cls.nt_fields, self))})"
+
+
 class ConstObj(Obj):
     """An immutable singleton instance (enum member): shared by every copy of a world, identity is preserved."""
 
